@@ -354,7 +354,7 @@ impl Prop for SizeRandom {
 
 impl RandomProp for SizeRandom {
     fn strategy(env: &Env) -> BoxedStrategy<SizeCase> {
-        let maxlen = env.pickn(2000, 50_000);
+        let maxlen = env.pickn(2000, 20_000);
         (gen::ty13(), any::<bool>(), 0u8..7)
             .prop_flat_map(move |(ty, closed, mpat)| {
                 let (minp, maxparts) = match ty.family() {
@@ -377,6 +377,6 @@ impl RandomProp for SizeRandom {
             .boxed()
     }
     fn cases(env: &Env) -> u64 {
-        env.n(13 * 3000, 13 * 100_000)
+        env.n(13 * 3000, 13 * 25_000)
     }
 }
